@@ -58,6 +58,19 @@ def gen_schema(rng, version=None):
         ds += [rng.choice(fixed) for _ in range(rng.randint(0 if ds else 1, 2))]
         s.vars.append(cs.Var(ascii_name(rng, used), rng.choice(tps), ds, atts(2)))
     s.numrecs = rng.choice([1, 2, 3]) if s.recvars() else 0
+    s.special_var = None
+    if ud >= 0 and rng.random() < 0.3:
+        # the one layout rule with an exception: a file with exactly ONE record variable packs its records without padding.
+        # A narrow type and an odd record length make that visible (record size not a multiple of 4).
+        s.vars = [v for v in s.vars if not s.is_rec(v)]
+        odd = [i for i in fixed if s.dims[i][1] % 2 == 1]
+        if not odd:
+            s.dims.append([ascii_name(rng, used), rng.choice([1, 3, 5, 7])])
+            odd = [len(s.dims) - 1]
+        xt = rng.choice([1, 2, 3] if version < 5 else [1, 2, 3, 7, 8])
+        s.vars.insert(rng.randint(0, len(s.vars)), cs.Var(ascii_name(rng, used), xt, [ud, rng.choice(odd)], atts(1)))
+        s.special_var = next(i for i, v in enumerate(s.vars) if s.is_rec(v))
+        s.numrecs = rng.choice([2, 3, 4])
     data = {}
     for i, v in enumerate(s.vars):
         shp = ([s.numrecs] if s.is_rec(v) else []) + s.shape(v)
@@ -211,13 +224,18 @@ class C20(Check):
             b2, _ = encode(s, data, r, plain=False)
             pairs.append(("relayout", b2, True))
             if s.vars:
-                vi = r.randrange(len(s.vars))
+                vi = r.randrange(len(s.vars)) if getattr(s, "special_var", None) is None else s.special_var
                 arr = data[vi]
                 if arr.size:
-                    for where in ("first", "last", "random"):
+                    for where in ("first", "last", "random", "second-record"):
                         d2 = {k: x.copy() for k, x in data.items()}
                         flat = d2[vi].reshape(-1)
-                        k = 0 if where == "first" else (flat.size - 1 if where == "last" else r.randrange(flat.size))
+                        if where == "second-record":
+                            if not (s.is_rec(s.vars[vi]) and arr.shape[0] >= 2):
+                                continue
+                            k = flat.size // arr.shape[0]           # first element of record 1
+                        else:
+                            k = 0 if where == "first" else (flat.size - 1 if where == "last" else r.randrange(flat.size))
                         flat[k] = flat[k] + 1 if flat.dtype.kind != "u" or flat[k] < 250 else flat[k] - 1
                         pairs.append(("value-" + where, encode(s, d2)[0], False))
                 s6 = copy.deepcopy(s); s6.vars[vi].name = s6.vars[vi].name + b"X"
